@@ -202,14 +202,14 @@ pp_crypto_hash_gost3411_sum_256 (puint32	a[8],
 				 const puint32	b[8])
 {
 	puint		i;
-	puint32		old;
-	pboolean	carry;
+	puint64		sum;
+	puint32		carry;
 
-	carry = FALSE;
+	carry = 0;
 	for (i = 0; i < 8; ++i) {
-		old = a[i];
-		a[i] = a[i] + b[i] + (carry ? 1 : 0);
-		carry = (a[i] < old || a[i] < b[i]) ? TRUE : FALSE;
+		sum   = (puint64) a[i] + (puint64) b[i] + (puint64) carry;
+		a[i]  = (puint32) (sum & 0xFFFFFFFF);
+		carry = (puint32) (sum >> 32);
 	}
 }
 
